@@ -323,6 +323,39 @@ func runCheck(root string, args []string) int {
 			fmt.Println("NOTE: bounded A-KEYS validation could not run:", res.status)
 		}
 	}
+	// thorough tier: bounded validation of the trusted reward-arithmetic contracts on the real code (C12, C13)
+	if (prop == "C12" || prop == "C13") && tier == "thorough" {
+		res := runBoundedTest(root, vd, "bounded/zz_bounded_rewards_test.go", "x/alliance/keeper/tests", "TestBoundedRewardArithmetic", seed)
+		var unknownFacts, knownFacts []string
+		for _, fct := range res.failed {
+			name := "bounded:reward-arithmetic:" + fct
+			if kf := isKnown(name); kf != nil {
+				knownFacts = append(knownFacts, fct)
+				knownHit = append(knownHit, name)
+				fmt.Printf("KNOWN-FINDING: property=%s %s: %s\n", prop, name, kf.What)
+			} else {
+				unknownFacts = append(unknownFacts, fct)
+			}
+		}
+		bounded = append(bounded, map[string]interface{}{
+			"name": "bounded:reward-arithmetic (bounded/zz_bounded_rewards_test.go on the real AddAssetsToRewardPool / CalculateDelegationRewards / ClaimDelegationRewards)",
+			"bound": "48 scenarios: 1,2,3,5 delegators x 3 reward weights x 4 reward amounts (1 .. 1e12), stakes 1 .. 1e24 base units, two assets, two reward denoms, seeded claim order; facts: indices_only_grow, claims_never_exceed_the_deposit, claims_covered_up_to_index_rounding, second_claim_pays_nothing, position_settled_after_claim",
+			"status": res.status, "seconds": res.secs, "failed_facts": res.failed, "known_failed_facts": knownFacts,
+		})
+		if len(unknownFacts) > 0 || (res.status != "passed" && res.status != "failed") {
+			violations++
+			dir := filepath.Join(vd, "replays", prop)
+			os.MkdirAll(dir, 0o755)
+			path := filepath.Join(dir, "bounded_reward_arithmetic.json")
+			jsonOut(path, map[string]interface{}{"property": prop, "obligation": "bounded:reward-arithmetic", "replayed": len(unknownFacts) > 0,
+				"reason": "the real reward functions violate a fact the trusted reward contracts state; the failing inputs are in the output", "failed_facts": unknownFacts, "status": res.status, "output": res.out})
+			line := fmt.Sprintf("VIOLATION property=%s replay=%s obligation=bounded:reward-arithmetic (%s)", prop, path, strings.Join(unknownFacts, ","))
+			if len(unknownFacts) == 0 {
+				line = fmt.Sprintf("VIOLATION property=%s replay=%s obligation=bounded:reward-arithmetic (could not be run on the current source: %s) no-failing-input-found", prop, path, res.status)
+			}
+			vioLines = append(vioLines, line)
+		}
+	}
 	var trusted []string
 	var assumptions []string
 	var ids []string
@@ -380,6 +413,54 @@ func runCheck(root string, args []string) int {
 		return 1
 	}
 	return 0
+}
+
+// runBoundedTest runs a bounded validation test of /verif against the working tree through `go test -overlay`;
+// failed facts are the `BOUNDED-FACT-FAILED <fact> ::` lines it prints.
+func runBoundedTest(root, vd, rel, pkgdir, testName string, seed int) keyLayerResult {
+	t0 := time.Now()
+	src := filepath.Join(vd, rel)
+	if _, err := os.Stat(src); err != nil {
+		src = filepath.Join("/verif", rel)
+		if _, err2 := os.Stat(src); err2 != nil {
+			return keyLayerResult{status: "bounded test file missing"}
+		}
+	}
+	ov, err := os.CreateTemp("", "gvc-ov-*.json")
+	if err != nil {
+		return keyLayerResult{status: err.Error()}
+	}
+	defer os.Remove(ov.Name())
+	fmt.Fprintf(ov, "{\"Replace\": {%q: %q}}\n", filepath.Join(root, pkgdir, filepath.Base(rel)), src)
+	ov.Close()
+	cmd := exec.Command("go", "test", "-overlay", ov.Name(), "-vet=off", "-count=1", "-timeout", "900s", "-run", "^"+testName+"$", "./"+pkgdir+"/")
+	cmd.Dir = root
+	cmd.Env = append(os.Environ(), "GOFLAGS=-mod=mod", "GOPROXY=off", "GOSUMDB=off", "GOTOOLCHAIN=local", fmt.Sprintf("VERIF_SEED=%d", seed))
+	b, err := cmd.CombinedOutput()
+	out := string(b)
+	res := keyLayerResult{out: out, secs: time.Since(t0).Seconds()}
+	seen := map[string]bool{}
+	for _, l := range strings.Split(out, "\n") {
+		if strings.HasPrefix(l, "BOUNDED-FACT-FAILED ") {
+			f := strings.Fields(l)[1]
+			if !seen[f] {
+				seen[f] = true
+				res.failed = append(res.failed, f)
+			}
+		}
+	}
+	switch {
+	case err == nil && strings.Contains(out, "BOUNDED-SUMMARY"):
+		res.status = "passed"
+	case strings.Contains(out, "BOUNDED-SUMMARY"):
+		res.status = "failed"
+	default:
+		res.status = "could not build or run: " + firstLine(out)
+	}
+	if len(out) > 6000 {
+		res.out = out[:6000]
+	}
+	return res
 }
 
 type keyLayerResult struct {
